@@ -209,6 +209,10 @@ func genC03Boundary(r *Rand) *Case {
 		case 3:
 			msgs = append(msgs, pgwire.FMsg{K: "C", Sub: 'S', S1: name}, pgwire.FMsg{K: "D", Sub: 'P', S1: name}, pgwire.FMsg{K: "S"})
 		}
+		if r.Bool() {
+			// Describe / Close whose kind byte is neither 'S' nor 'P'
+			msgs = append(msgs, oddTarget(r), pgwire.FMsg{K: "S"})
+		}
 		msgs = append(msgs, query("after", 20), pgwire.FMsg{K: "S"}, query("z", 13))
 	}
 	steps := []Step{{Msgs: []pgwire.FMsg{su}}}
@@ -221,6 +225,12 @@ func genC03Boundary(r *Rand) *Case {
 	}
 	c.Conns = []ConnCase{{Steps: steps, Cuts: genCuts(r)}}
 	return c
+}
+
+// oddTarget is a Describe or Close message whose kind byte is not one of the
+// two the protocol defines (0x00 makes the body look like an empty string).
+func oddTarget(r *Rand) pgwire.FMsg {
+	return pgwire.FMsg{K: r.Pick("D", "C"), Sub: byte(r.PickInt(0, 0, 1, 'X', 's', 0x80, 0xff)), S1: r.Pick("", "s1", "p1")}
 }
 
 func genAccessorCase(r *Rand) *Case {
@@ -307,6 +317,10 @@ func stripTails(c *Case) *Case {
 				m := &cp.Conns[ci].Steps[si].Msgs[mi]
 				if len(m.K) == 1 && m.K != "d" {
 					m.Tail = nil
+				}
+				if m.K == "ssl" {
+					// surplus carried inside an SSLRequest's declared length
+					m.Data = nil
 				}
 			}
 		}
@@ -431,7 +445,7 @@ func checkC03(x *Exec, c *Case) ([]Violation, bool) {
 func init() {
 	register(&Prop{
 		ID: "C03", Level: "exploration", QuickS: 25, ThoroughS: 420,
-		Rule:        "seeded client byte streams (valid sessions of every phase incl. SSLRequest->N, COPY, oversized messages; messages carrying grammar-external surplus bytes: Parse with parameter OIDs, Execute/Sync/Flush/Query/Describe/Close/Bind with trailing junk; a truncated or mis-sized final message) each run under its generated segmentation and then under: all at once, one byte per read, cuts inside every 5-byte header ({2,3},{4,1},{5},{6,1,1}), a cut at every message boundary and 3 seeded cut lists, plus four runs with one legal empty read (0 bytes, no error) at a seeded read index; canonical transcript, output length and callback trace must be identical across all of them, and equal to the run with the surplus bytes removed; accessor clause: buffer.Reader driven directly over the segmenting reader with a generated message body followed by a canary message, a random sequence of GetString/GetBytes(n>=0)/GetUint16/GetUint32/GetPrepareType compared call by call with an independent cursor (no panic, errors exactly on short/unterminated data, canary message intact afterwards); every case counts as non-trivial (each is a differential over >= 9 segmentations); distinct = distinct case content hashes",
+		Rule:        "seeded client byte streams (valid sessions of every phase incl. SSLRequest->N, COPY, oversized messages; messages carrying grammar-external surplus bytes: Parse with parameter OIDs, Execute/Sync/Flush/Query/Describe/Close/Bind with trailing junk, SSLRequests carrying bytes inside their declared length, Describe/Close with undefined kind bytes; a truncated or mis-sized final message) each run under its generated segmentation and then under: all at once, one byte per read, cuts inside every 5-byte header ({2,3},{4,1},{5},{6,1,1}), a cut at every message boundary and 3 seeded cut lists, plus four runs with one legal empty read (0 bytes, no error) at a seeded read index; canonical transcript, output length and callback trace must be identical across all of them, and equal to the run with the surplus bytes removed; accessor clause: buffer.Reader driven directly over the segmenting reader with a generated message body followed by a canary message, a random sequence of GetString/GetBytes(n>=0)/GetUint16/GetUint32/GetPrepareType compared call by call with an independent cursor (no panic, errors exactly on short/unterminated data, canary message intact afterwards); every case counts as non-trivial (each is a differential over >= 9 segmentations); distinct = distinct case content hashes",
 		Components:  append(append([]string{}, e1Components...), "accessor clause: real pkg/buffer.Reader over a stub segmenting io.Reader (input generation riding on the simulated transport)"),
 		Assumptions: commonAssumptions,
 		Gen: func(r *Rand, tier string) *Case {
@@ -450,10 +464,15 @@ func init() {
 			if r.Chance(1, 5) {
 				// SSLRequest declined, then the plaintext session - either waiting for
 				// the 'N' or with the startup packet pipelined right behind the request
+				ssl := pgwire.FMsg{K: "ssl"}
+				if r.Chance(1, 3) {
+					// an SSLRequest that declares and carries more than its 8 bytes
+					ssl.Data = r.PickBytes([]byte{0, 0, 0, 8}, []byte{0}, []byte{0, 3, 0, 0}, r.Bytes(r.Range(1, 24)))
+				}
 				if r.Bool() {
-					cc.Steps = append([]Step{{Msgs: []pgwire.FMsg{{K: "ssl"}}}}, cc.Steps...)
+					cc.Steps = append([]Step{{Msgs: []pgwire.FMsg{ssl}}}, cc.Steps...)
 				} else {
-					cc.Steps[0].Msgs = append([]pgwire.FMsg{{K: "ssl"}}, cc.Steps[0].Msgs...)
+					cc.Steps[0].Msgs = append([]pgwire.FMsg{ssl}, cc.Steps[0].Msgs...)
 				}
 			}
 			if r.Chance(1, 3) {
